@@ -44,6 +44,8 @@ inductive Payload
   | sseCutH  -- text/event-stream: a priming event with an id, then a clean end; the resumption GETs are accepted, never answered
   | sseCutT  -- the same, but every resumption GET fails in transport (the retry budget runs out)
   | other    -- another content type
+  | accepted -- 202 Accepted, no body, no content type (what a notification gets)
+  | strictRefused -- (strict mode, after normalisation) a notification answered with a status other than 202/204
   deriving DecidableEq, Repr
 
 /-- the peer's answer to one POST -/
@@ -71,7 +73,7 @@ structure Scn where
   deriving DecidableEq, Repr
 
 inductive EKind
-  | terr | ctx | auth | tokenSource | reconnect | rpc | transient (c : Nat) | gone | status (c : Nat) | mismatch | ctype | body | decode
+  | terr | ctx | auth | tokenSource | reconnect | unexpectedStatus | rpc | transient (c : Nat) | gone | status (c : Nat) | mismatch | ctype | body | decode
   deriving DecidableEq, Repr
 
 /-- how the message ends for its sender -/
@@ -109,6 +111,7 @@ def afterResponse (cancel : Bool) (k : Kind) : Ans → End × Conn
     else (.err (.status c), .dead)                            -- c.fail
   | .ok p sid =>
     if !sid then (.err .mismatch, .dead)                      -- "mismatching session IDs": a plain write error
+    else if p == .strictRefused then (.err .unexpectedStatus, .dead)  -- strict: "unexpected status code … from non-call"
     else match k with
       | .notif => (.done, .usable)                            -- body closed; a status other than 202/204 is only logged (non-strict)
       | .call =>
@@ -126,6 +129,8 @@ def afterResponse (cancel : Bool) (k : Kind) : Ans → End × Conn
           if cancel then (.err .ctx, .usable) else (.blocked, .usable)
         | .sseCutT => (.err .reconnect, .dead)                -- connectSSE: budget exhausted: c.fail("failed to reconnect")
         | .other => (.err .ctype, .dead)                      -- "unsupported content type"
+        | .accepted => (.err .ctype, .dead)                   -- a call answered 202 without a body: unsupported content type ""
+        | .strictRefused => (.err .unexpectedStatus, .dead)
   | .terr => (.err .terr, .usable)
   | .hang => (.blocked, .usable)
 
